@@ -8,6 +8,8 @@ pub struct PlanItem {
     pub runs: u64,
     /// `extra` = run index (enumerated sub-space) instead of 0
     pub enumerate: bool,
+    /// `extra` = a pseudo-random index below this bound (sampling of an enumerated space)
+    pub sample_space: Option<u64>,
 }
 
 pub struct Plan {
@@ -20,13 +22,13 @@ pub struct Plan {
 }
 
 fn prog(p: Profile, runs: u64) -> PlanItem {
-    PlanItem { scn: Scenario::Program(p), runs, enumerate: false }
+    PlanItem { scn: Scenario::Program(p), runs, enumerate: false, sample_space: None }
 }
 fn scn(s: Scenario, runs: u64) -> PlanItem {
-    PlanItem { scn: s, runs, enumerate: false }
+    PlanItem { scn: s, runs, enumerate: false, sample_space: None }
 }
 fn enumerated(s: Scenario, runs: u64) -> PlanItem {
-    PlanItem { scn: s, runs, enumerate: true }
+    PlanItem { scn: s, runs, enumerate: true, sample_space: None }
 }
 
 const COMMON_ASSUMPTIONS: [&str; 4] = [
@@ -162,9 +164,27 @@ pub fn plan_for(prop: &str, tier: &str) -> Option<Plan> {
         }
         _ => return None,
     };
-    let items: Vec<PlanItem> = items.into_iter().filter(|i| matches!(i.scn, Scenario::Program(_)) || crate::scen::implemented(i.scn)).collect();
+    let mut items: Vec<PlanItem> = items.into_iter().filter(|i| matches!(i.scn, Scenario::Program(_)) || crate::scen::implemented(i.scn)).collect();
     if items.is_empty() {
         return None;
+    }
+    // Sweep: every oracle runs in every scenario, so a small sample of all the workloads that are
+    // not part of this property's own mix is appended (a defect of this property that only shows
+    // under another property's workload is otherwise visible only as a cross-property note).
+    for s in all_scenarios() {
+        if items.iter().any(|i| i.scn == s) {
+            continue;
+        }
+        let space = match s {
+            Scenario::Bytes(0) => Some(131_586),
+            Scenario::Bytes(2) => Some(43_008),
+            Scenario::FaultEnum(_) => Some(241_920),
+            Scenario::FragTwin(0) | Scenario::FragTwin(2) => Some(32_768),
+            Scenario::Table => Some(96 * 304),
+            _ => None,
+        };
+        let runs = if matches!(s, Scenario::Program(Profile::Aging)) { k(60) } else { k(500) };
+        items.push(PlanItem { scn: s, runs, enumerate: false, sample_space: space });
     }
     Some(Plan { items, level, rule, nontrivial, exhaustive, assumptions: COMMON_ASSUMPTIONS.to_vec() })
 }
